@@ -32,7 +32,7 @@ _ZSEP = ["\u2028", "\u2029", "\u00a0", "\u2003", "\u3000"]
 _XML = ["&", "<", ">", '"', "'", "&amp;", "]]>", "<!--"]
 _PUNCT = ["#", "!", "+", "(", ")", ",", ";", "=", "@", "~", "`", "$", "%", "^", "{", "}", "[", "]", "*", "?", "\\", ":", "|"]
 
-NAME_CLASSES = ["plain", "space", "xml", "punct", "uni", "zsep", "dash", "dot", "nearmiss", "long", "dotend", "dotunder", "appledouble", "bracket"]
+NAME_CLASSES = ["plain", "space", "xml", "punct", "uni", "zsep", "dash", "dot", "nearmiss", "long", "dotend", "dotunder", "appledouble", "bracket", "lf"]
 FORBIDDEN = {".", "..", ASC, ".DS_Store", ""}
 
 
@@ -52,6 +52,9 @@ def gen_name(rng, cls=None, ext=True):
         n = rng.choice(_UNI) + stem[:3] + (rng.choice(_UNI) if rng.random() < 0.5 else "")
     elif cls == "zsep":
         n = stem[:2] + rng.choice(_ZSEP) + stem[2:]
+    elif cls == "lf":
+        # a line feed / tab / carriage return inside a name (legal for the file system, legal as XML text)
+        n = stem[:2] + rng.choice(["\n", "\n", "\n\n", "\t", "\r", "\r\n", " \n ", "\n  "]) + stem[2:] + rng.choice(["", "", "\n"])
     elif cls == "dash":
         n = rng.choice(["-", "--", "-h", "-" + stem, "--" + stem])
     elif cls == "dot":
@@ -112,7 +115,7 @@ def is_unstorable_error(r):
 
 def root_name(rng, prefix="R"):
     """name for a history root folder: it ends up in manifest file names, so every name class matters"""
-    cls = rng.choice(["plain", "plain", "space", "xml", "punct", "uni", "zsep", "dot", "dotend", "dotunder", "bracket", "long"])
+    cls = rng.choice(["plain", "plain", "space", "xml", "punct", "uni", "zsep", "dot", "dotend", "dotunder", "bracket", "long", "lf"])
     n = prefix + gen_name(rng, cls, ext=False)
     return n[:120]
 
@@ -209,6 +212,8 @@ def read_tree(root, skip_asc=True):
         if skip_asc and ASC in dns:
             dns.remove(ASC)
         for d in dns:
+            if os.path.islink(os.path.join(dp, d)):
+                continue  # links to folders are neither followed nor recorded
             out[os.path.relpath(os.path.join(dp, d), root)] = None
         for f in fns:
             p = os.path.join(dp, f)
@@ -243,6 +248,35 @@ def add_file_symlinks(rng, root, tree, n=1, outside=None):
         os.symlink(target, os.path.join(root, rel))
         tree[rel] = tree[t]
         out[rel] = target
+    return out
+
+
+def add_dir_symlinks(rng, root, tree, n=1, outside=None):
+    """create up to n symbolic links to folders: one of the tree, the folder above the link (a loop) or, when `outside` is a
+    directory, a folder there.  Such links are neither followed nor recorded; `tree` is left as it is.  Returns the links."""
+    dirs = sorted(k for k, v in tree.items() if v is None)
+    out = []
+    for i in range(n):
+        par = rng.choice([""] + dirs)
+        rel = (par + "/" if par else "") + "dlnk%d" % i
+        if rel in tree or os.path.lexists(os.path.join(root, rel)) or not os.path.isdir(os.path.join(root, par)):
+            continue
+        k = rng.random()
+        if outside and k < 0.3:
+            tp = os.path.join(outside, "tdir%d" % i)
+            os.makedirs(tp, exist_ok=True)
+            with open(os.path.join(tp, "inside.bin"), "wb") as f:
+                f.write(b"outside" + rng.randbytes(3))
+            target = tp
+        elif k < 0.45:
+            target = ".."
+        elif dirs:
+            t = rng.choice(dirs)
+            target = os.path.join(root, t) if rng.random() < 0.5 else os.path.relpath(os.path.join(root, t), os.path.dirname(os.path.join(root, rel)))
+        else:
+            target = "."
+        os.symlink(target, os.path.join(root, rel))
+        out.append(rel)
     return out
 
 
